@@ -19,7 +19,7 @@ from tools.props import c06_ts as tsread
 MANIFEST = {
     "level_text": "Coq theorems (Properties/C06.v, no axioms) about a Gallina transcription of serde_parser.rs (substring scanners on the proc_macro2 token string), struct_parser.rs (skip filter for fields and variants), NamingContext::apply_naming_convention / compute_field_name / compute_variant_name and serde-rename-rule's apply_to_field / apply_to_variant (the code with the repairs C06-1-variant-rule, C06-6-variant-skip, C15 rename-restart-offset and camel-call-site-guard): for every container kind, container rename_all, ASCII identifier and attribute list (rename = any string, skip, any other name / name = any string, in any order, in one or several #[serde] attributes) outside the four remaining narrow recorded classes (substring detection of skip / rename, unescaped rename values) the emitted names are exactly serde's wire names (serde_derive case.rs apply_to_field / apply_to_variant, item rename wins, absent iff skip), and other attributes are inert there; each class has a computed counterexample. Tied to /repo on every run: ~10^4 containers through the real StructParser, FieldContext and both generators (keys read back from types.ts) against the extracted model and oracle.",
     "design_ref": "DESIGN.md section 5 C06",
-    "level_note": "Identifiers are ASCII (Unicode case predicates of apply_to_variant are not modelled); raw identifiers (r#type) are outside the domain. The default_field_case setting is fixed to its default (snake_case) in the theorems. String-literal bodies read back from types.ts are compared as raw text (no JavaScript unescaping), so a backslash-only rename on an enum variant is counted inside class C06-4 although its JS literal happens to denote the right string. The specification of serde's rules is a transcription of serde_derive's case.rs, compared on every run with types derived by the real serde_derive on a fixed set of 18 containers (finite validation, not a proof). The tie between model and code is differential (bounded).",
+    "level_note": "Identifiers are ASCII (Unicode case predicates of apply_to_variant are not modelled), plain or raw (r#type is named type). The default_field_case setting is fixed to its default (snake_case) in the theorems. Keys and literals read back from types.ts are decoded (bare identifier names as they are, quoted ones through the escapes the generators print). The specification of serde's rules is a transcription of serde_derive's case.rs, compared on every run with types derived by the real serde_derive on a fixed set of 18 containers (finite validation, not a proof). The tie between model and code is differential (bounded).",
     "technique": "Rocq/Coq proof over hand-written model + correspondence check (extracted OCaml vs Rust harness)"
 }
 
@@ -31,7 +31,7 @@ RULE = ("exhaustive: 9 container rules x {struct, enum} x every item-attribute s
         "non-trivial when it has a container rule or an item attribute; distinct = distinct (container, config) pairs")
 TRUSTED = [
     "Spec/C06SerdeRule.v is a transcription of serde_derive-1.0.228 src/internals/case.rs (identical in 1.0.219/1.0.229) and of the rename/skip rules of attr.rs; validated on every run (stream real-serde) against the serde_derive + serde_json the harness is compiled with: 8 rules and none x {struct, enum} x 16 identifier shapes plus rename / skip / default / skip_serializing_if items",
-    "Spec/TsModule.v + Spec/C06Keys.v read types.ts; tools/props/c06_ts.py (line reader) is used when a key is not a TypeScript property name",
+    "Spec/TsModule.v + Spec/C06Keys.v read types.ts (quoted keys and literals decoded by js_unescape); tools/props/c06_ts.py (line reader) only when the file is outside the module grammar",
     "tools/props/c06_gen.py prints the Rust source of a case; the printed attribute text is validated on every case against proc_macro2 (token strings equal the model's)",
 ]
 ASSUMPTIONS = ["identifiers are ASCII; configuration default_field_case = snake_case (the default) wherever the oracle is applied"]
@@ -45,23 +45,17 @@ def container_sx(c):
 
 def read_ts(kind, mode, text, runner_decls):
     """names read from one types.ts. Returns (names|None, how).
-    C06 observes the TEXT printed in key / literal position. Keys are printed bare by the templates, so
-    for a struct the line reader comes first (whether `user-id` or `q?` is a TypeScript property name
-    that denotes itself is C01's subject); the module parser is the fall-back when the layout changed.
-    Enum literals are quoted: the module parser comes first, the line reader when a quote or backslash
-    in a name breaks the literal."""
+    Since C01-bare-key-quote / C01-enum-literal-escape every key that is not an identifier name and every
+    enum literal is printed as a double-quoted escaped literal, so the file is in the module grammar and
+    the extracted module parser (Spec/C06Keys.v, which decodes the escapes) is the reader; the line
+    reader (also decoding) is only the fall-back when the file cannot be parsed."""
     want = {("struct", "plain"): "interface", ("enum", "plain"): "literals",
             ("struct", "zod"): "zobject", ("enum", "zod"): "zenum"}[(kind, mode)]
-    parsed = None
     if runner_decls:
         for d in runner_decls[0]:
             if d[0] == want:
-                parsed = list(d[1])
-                break
-    lines = tsread.read(kind, mode, text)
-    if kind == "struct":
-        return (lines, "lines") if lines is not None else (parsed, "parser")
-    return (parsed, "parser") if parsed is not None else (lines, "lines")
+                return list(d[1]), "parser"
+    return tsread.read(kind, mode, text), "lines"
 
 
 def is_raw(c):
@@ -177,9 +171,9 @@ def evaluate(cases, e2e=True):
 
 
 REAL_FIELDS = ["id", "user_id", "first_last_name", "a", "x1", "user_2fa", "http_url", "_private", "a__b", "trailing_",
-               "userName", "myHTTPServer", "URL", "x_y_z", "field1_name2", "i"]
+               "userName", "myHTTPServer", "URL", "x_y_z", "field1_name2", "i", "r#type", "r#match_arm"]
 REAL_VARIANTS = ["Active", "InProgress", "A", "HTTPError", "V2", "Ok", "MyHTTPServer", "Snake_Case", "lower", "X_Y", "ABC",
-                 "A1B2", "NotFound404", "IoError", "x", "UserID"]
+                 "A1B2", "NotFound404", "IoError", "x", "UserID", "r#type", "r#Match"]
 
 
 def real_serde_outcomes():
